@@ -654,6 +654,9 @@ func c06RunFuncs(u fw.Unit) fw.Result {
 	if sp.Shard == 1 {
 		c06CaseVariantPairs(a)
 	}
+	if sp.Shard == 2 {
+		c06QuotedLiteralArgs(a)
+	}
 	return a.result()
 }
 
